@@ -20,7 +20,7 @@ RANK = {'pending': 0, 'started': 1, 'completed': 2}
 def families(tier):
     deep = tier == 'thorough'
     out = []
-    cfg = dict(bound=2 if deep else 1, cap=20000 if deep else 1500, window=0.25, max_targets=1)
+    cfg = dict(bound=3 if deep else 1, cap=20000 if deep else 1500, window=0.25, max_targets=1)
     Ns = (1, 2, 3, 4, 5) if deep else (1, 2, 3)
 
     def add(fam, sid, N, hs, main, names=('A',), **params):
